@@ -79,13 +79,23 @@ def gen(i, R, tier, noninterference=True):
     n_scans = rng.randint(1, 2)
     for s in range(n_scans):
         op = {"op": "scan", "nonce": G.nonce(rng), "spelling": rng.choice(SPELLINGS)}
+        if rng.random() < 0.12:
+            # a failing read (EIO) of the k-th tree file opened by the scan
+            op["read_fault"] = {"n": rng.randrange(0, 24)}
         if not noninterference or rng.random() < 0.5:
             op["noninterference"] = False
         ops.append(op)
         if s + 1 < n_scans:
             # mutate the environment between scans: the second scan runs with a cache
             r = rng.random()
-            if r < 0.4 and placed:
+            if r < 0.25 and placed:
+                # the same bytes appear under a name of another language (copy / rename)
+                src = rng.choice(sorted(placed))
+                lang = G.lang_of_path(src)
+                other = rng.choice([l for l in G.LANGS if l != lang]) if lang else "py"
+                dst = G.new_path(rng, other)
+                ops.append({"op": "write", "path": dst, "content": placed[src]})
+            elif r < 0.4 and placed:
                 ops.append({"op": "delete", "path": rng.choice(sorted(placed))})
             elif r < 0.7:
                 ops.append({"op": "set_cli", "patterns": [pattern(rng, placed)]})
